@@ -1,6 +1,6 @@
 (* C08 property theorems: statements only, each closed by `exact`, with Print Assumptions.
    All statements are about the exact-rational model coq/C08/Model.v (== is equality of rationals). *)
-From Coq Require Import ZArith QArith Qabs List Bool.
+From Coq Require Import ZArith QArith Qabs List Bool Lia.
 From QE Require Import Base.Cases C08.Model C08.Proofs.
 Import ListNotations.
 Open Scope Q_scope.
@@ -93,6 +93,27 @@ Theorem C08_legendre_normalisation : forall n, legP n 1 == 1.
 Proof. intros n. exact (proj1 (legP_at_1 n)). Qed.
 Print Assumptions C08_legendre_normalisation.
 
+(* Algebraic core of Gauss's theorem, proved over Q for ANY rational nodes (no distinctness needed) and ANY
+   linear functional given by its moments m(0), m(1), ...: if the n-point rule reproduces m(0..n-1)
+   (interpolatory weights) and the node polynomial omega = prod (x - x_i) (coefficient list nodepoly nodes)
+   is orthogonal to 1, x, .., x^(n-1)  (mf m j omega = L(x^j omega) = sum_c omega_c m(j+c) = 0),
+   then the rule reproduces m(0..2n-1).  What stays unproved is only that the floating-point kernels'
+   nodes/weights satisfy these two hypotheses for the Legendre/Hermite/Jacobi/Laguerre functionals. *)
+Theorem C08_gauss_algebraic_core : forall (nodes ws : list Q) (m : nat -> Q),
+  let n := length nodes in
+  (forall k, (k < n)%nat -> quad nodes ws (fun x => qpow x k) == m k) ->
+  (forall j, (j < n)%nat -> mf m j (nodepoly nodes) == 0) ->
+  forall k, (k < 2 * n)%nat -> quad nodes ws (fun x => qpow x k) == m k.
+Proof. exact gauss_core. Qed.
+Print Assumptions C08_gauss_algebraic_core.
+
+(* the coefficient list really is the monic node polynomial: it vanishes at every node and has leading coefficient 1 *)
+Theorem C08_nodepoly_spec : forall xs,
+  (forall x, In x xs -> peval (nodepoly xs) x == 0) /\
+  exists q, nodepoly xs = q ++ [1] /\ length q = length xs.
+Proof. intros xs. split; [intros x; apply nodepoly_root | apply nodepoly_monic]. Qed.
+Print Assumptions C08_nodepoly_spec.
+
 (* NOT PROVED (classical Gauss theorem): nodes = the roots of P_n, weights 2/((1-z^2) P_n'(z)^2)
    integrate every monomial of degree <= 2n-1 exactly.  Over Q the hypothesis "all n roots" is
    satisfiable only for n = 1 (P_n has no other rational roots), so the statement that matters is
@@ -167,3 +188,11 @@ Proof. vm_compute. reflexivity. Qed.
 Example ex_affine_hyp : forall k, (k <= 1)%nat ->
   quad [0] [2] (fun t => qpow t k) == (qpow 1 (S k) - qpow (-1) (S k)) / qn (S k).
 Proof. intros [|[|k]] H; [vm_compute; reflexivity | vm_compute; reflexivity | exfalso; inversion H as [|? H']; inversion H']. Qed.
+(* hypotheses of the algebraic core are satisfiable: the 1-point Gauss-Legendre rule (node 0, weight 2) *)
+Example ex_gauss_core_hyp :
+  let m := fun k => (qpow 1 (S k) - qpow (-1) (S k)) / qn (S k) in
+  (forall k, (k < 1)%nat -> quad [0] [2] (fun x => qpow x k) == m k) /\
+  (forall j, (j < 1)%nat -> mf m j (nodepoly [0]) == 0).
+Proof.
+  split; intros [|k] H; try (exfalso; lia); vm_compute; reflexivity.
+Qed.
